@@ -2,7 +2,7 @@
  *
  * Unity build of the thread pool + threadpool_task.c (private struct tp_task_s is visible, nothing is changed);
  * src/net/socket*.c and src/utils/sys.c are linked as separate objects.  Link with
- *   -Wl,--wrap=recv,--wrap=send,--wrap=pread,--wrap=pwrite,--wrap=recvfrom,--wrap=epoll_ctl,
+ *   -Wl,--wrap=recv,--wrap=send,--wrap=pread,--wrap=pwrite,--wrap=recvfrom,--wrap=accept4,--wrap=epoll_ctl,
  *       --wrap=timerfd_create,--wrap=timerfd_settime
  * The wrappers (a) cap every recv/send/pread/pwrite of a task descriptor at the scenario's next fragment size
  * (the kernel's fragmentation becomes a chosen input), (b) inject the errno the scenario arms, (c) log the
